@@ -241,7 +241,17 @@ def encCekSetup (jwe cek : Json) : Option (AlgRec × Json) :=
        | some (.obj o) => optStr (.obj o) "enc"
        | some _ => none)
     | _ => none
-  match sub "unprotected", sub "protected", optStr cek "alg" with
+  -- the protected header may already be encoded (fix F37): its text is decoded and looked into
+  let subP : Option (Option String) :=
+    match jwe with
+    | .obj kvs =>
+      (match lookup "protected" kvs with
+       | none => some none
+       | some (.obj o) => optStr (.obj o) "enc"
+       | some (.str t) => (B64.decLoad (some (.str t))).bind fun d => if d.isObject then optStr d "enc" else none
+       | some _ => none)
+    | _ => none
+  match sub "unprotected", subP, optStr cek "alg" with
   | some hu, some hp, some k =>
     let h := match hp with | some x => some x | none => hu
     let r : Option (AlgRec × Json) :=
